@@ -742,26 +742,24 @@ def Doc.scalarNames (doc : Doc) : List Name :=
 def Doc.unsupportedNames (doc : Doc) : List Name :=
   doc.filterMap fun | .unsupported n => some n | _ => none
 
-/-- "`n` is a defined vertex type" / "… with definition `d`". -/
-def Doc.HasType (doc : Doc) (d : TypeDef) : Prop := d ∈ doc.types
-
-def Doc.IsVertex (doc : Doc) (n : Name) : Prop := ∃ d ∈ doc.types, d.name = n
+/-- "`n` is a defined vertex type" among the definitions `ts`. -/
+def IsVertex (ts : List TypeDef) (n : Name) : Prop := ∃ d ∈ ts, d.name = n
 
 /-- The subtype relation on type *names*: equal names, or (both vertex types and) the subtype lists
 the parent in its `implements`. Scalars and undefined names are only subtypes of themselves. -/
-def NamedNarrows (doc : Doc) (parent sub : Name) : Prop :=
-  parent = sub ∨ (doc.IsVertex parent ∧ ∃ d ∈ doc.types, d.name = sub ∧ parent ∈ d.implements)
+def NamedNarrows (ts : List TypeDef) (parent sub : Name) : Prop :=
+  parent = sub ∨ (IsVertex ts parent ∧ ∃ d ∈ ts, d.name = sub ∧ parent ∈ d.implements)
 
 /-- "The inherited field's type may only be narrowed": same list structure; at every level a
 non-null parent requires a non-null child; the innermost names are in the subtype relation. -/
-inductive Narrows (doc : Doc) : PTy → PTy → Prop where
-  | named {p s : Name} {pn sn : Bool} : (pn = true → sn = true) → NamedNarrows doc p s →
-      Narrows doc (.named p pn) (.named s sn)
-  | list {pi si : PTy} {pn sn : Bool} : (pn = true → sn = true) → Narrows doc pi si →
-      Narrows doc (.list pi pn) (.list si sn)
+inductive Narrows (ts : List TypeDef) : PTy → PTy → Prop where
+  | named {p s : Name} {pn sn : Bool} : (pn = true → sn = true) → NamedNarrows ts p s →
+      Narrows ts (.named p pn) (.named s sn)
+  | list {pi si : PTy} {pn sn : Bool} : (pn = true → sn = true) → Narrows ts pi si →
+      Narrows ts (.list pi pn) (.list si sn)
 
-/-- Parameter types are contravariant: the *child's* parameter type may only be widened, i.e. the
-parent's parameter type is a scalar-only subtype of the child's. -/
+/-- `ScalarNarrows parent sub`: the same named scalar under the same list structure, and at every
+level a non-null `parent` requires a non-null `sub` (no vertex-type subtyping is involved). -/
 inductive ScalarNarrows : PTy → PTy → Prop where
   | named {n : Name} {pn sn : Bool} : (pn = true → sn = true) → ScalarNarrows (.named n pn) (.named n sn)
   | list {pi si : PTy} {pn sn : Bool} : (pn = true → sn = true) → pi.base = si.base →
@@ -790,23 +788,25 @@ def Fits : PTy → Value → Prop
   | _, _ => False
 
 /-- One step of the `implements` relation between *defined* types. -/
-def ImplStep (doc : Doc) (a b : Name) : Prop :=
-  ∃ d ∈ doc.types, d.name = a ∧ b ∈ d.implements ∧ doc.IsVertex b
+def ImplStep (ts : List TypeDef) (a b : Name) : Prop :=
+  ∃ d ∈ ts, d.name = a ∧ b ∈ d.implements ∧ IsVertex ts b
 
 /-- Transitive closure. -/
 inductive TransGen {α : Type} (r : α → α → Prop) : α → α → Prop where
   | single {a b : α} : r a b → TransGen r a b
   | tail {a b c : α} : TransGen r a b → r b c → TransGen r a c
 
-def Doc.HasField (doc : Doc) (t f : Name) : Prop := ∃ d ∈ doc.types, d.name = t ∧ ∃ x ∈ d.fields, x.name = f
+/-- Type `t` is defined and declares a field named `f`. -/
+def HasField (ts : List TypeDef) (t f : Name) : Prop := ∃ d ∈ ts, d.name = t ∧ ∃ x ∈ d.fields, x.name = f
 
-/-- `OriginOf doc t f a`: `a` is a type in which field `f` of type `t` originates: `t` itself when
+/-- `OriginOf ts t f a`: `a` is a type in which field `f` of type `t` originates: `t` itself when
 none of the types it implements has a field `f`, otherwise an origin of `f` in one of those. -/
-inductive OriginOf (doc : Doc) : Name → Name → Name → Prop where
-  | self {t f : Name} : doc.HasField t f →
-      (∀ d ∈ doc.types, d.name = t → ∀ i ∈ d.implements, ¬ doc.HasField i f) → OriginOf doc t f t
-  | inherited {t f i a : Name} : doc.HasField t f →
-      (∃ d ∈ doc.types, d.name = t ∧ i ∈ d.implements) → OriginOf doc i f a → OriginOf doc t f a
+inductive OriginOf (ts : List TypeDef) : Name → Name → Name → Prop where
+  | self {t f : Name} : HasField ts t f →
+      (∀ d ∈ ts, d.name = t → ∀ i ∈ d.implements, ¬ HasField ts i f) → OriginOf ts t f t
+  | inherited {t f i a : Name} : HasField ts t f →
+      (∃ d ∈ ts, d.name = t ∧ i ∈ d.implements) → HasField ts i f → OriginOf ts i f a →
+      OriginOf ts t f a
 
 /-- The documented schema rules. -/
 structure ValidSchema (doc : Doc) : Prop where
@@ -825,14 +825,16 @@ structure ValidSchema (doc : Doc) : Prop where
   /-- inherited fields are present -/
   inheritedPresent : ∀ t ∈ doc.types, ∀ i ∈ t.implements, ∀ d ∈ doc.types, d.name = i →
     ∀ pf ∈ d.fields, ∃ f ∈ t.fields, f.name = pf.name
-  /-- inherited fields are only narrowed; same parameter names; parameter types only widened -/
+  /-- inherited fields are only narrowed; same parameter names; parameter types only widened
+  (contravariant: the parent's parameter type narrows the child's) -/
   inheritedNarrowed : ∀ t ∈ doc.types, ∀ f ∈ t.fields, ∀ i ∈ t.implements, ∀ d ∈ doc.types, d.name = i →
     ∀ pf ∈ d.fields, pf.name = f.name →
-      Narrows doc pf.ty f.ty ∧
+      Narrows doc.types pf.ty f.ty ∧
       (∀ p, (∃ a ∈ pf.args, a.name = p) ↔ (∃ a ∈ f.args, a.name = p)) ∧
       (∀ p cty pty, argTy f.args p = some cty → argTy pf.args p = some pty → ScalarNarrows cty pty)
   /-- every field type is a built-in scalar or a defined vertex type -/
-  fieldTypesKnown : ∀ t ∈ doc.types, ∀ f ∈ t.fields, isBuiltin f.ty.base = true ∨ doc.IsVertex f.ty.base
+  fieldTypesKnown : ∀ t ∈ doc.types, ∀ f ∈ t.fields,
+    isBuiltin f.ty.base = true ∨ IsVertex doc.types f.ty.base
   /-- no reserved names -/
   noReservedNames : ∀ t ∈ doc.types, reserved t.name = false ∧ ∀ f ∈ t.fields, reserved f.name = false
   /-- no edges into the root type -/
@@ -845,12 +847,13 @@ structure ValidSchema (doc : Doc) : Prop where
   /-- edge types are a vertex type or a list of one, not a list of lists -/
   edgesNotNested : ∀ t ∈ doc.types, ∀ f ∈ t.fields, isBuiltin f.ty.base = false → f.ty.depth ≤ 1
   /-- the root type only has edges -/
-  rootFieldsAreEdges : ∀ t ∈ doc.types, t.name ∈ doc.schemaBlocks → ∀ f ∈ t.fields, isBuiltin f.ty.base = false
+  rootFieldsAreEdges : ∀ t ∈ doc.types, t.name ∈ doc.schemaBlocks → ∀ f ∈ t.fields,
+    isBuiltin f.ty.base = false
   /-- no implementation cycles -/
-  acyclic : ∀ t, ¬ TransGen (ImplStep doc) t t
+  acyclic : ∀ t, ¬ TransGen (ImplStep doc.types) t t
   /-- no ambiguous field origins -/
   unambiguousOrigins : ∀ t ∈ doc.types, ∀ f ∈ t.fields, ∀ a b,
-    OriginOf doc t.name f.name a → OriginOf doc t.name f.name b → a = b
+    OriginOf doc.types t.name f.name a → OriginOf doc.types t.name f.name b → a = b
 
 /-! ## The known panic triggers -/
 
